@@ -1,12 +1,13 @@
 import CalicoVerif.Util.Proto
-import CalicoVerif.Model.C29
+import CalicoVerif.Model.C29V1
 /-! Driver for C29.  Ops (tokens never contain spaces):
 
   `np <ns> <sel> <types> <rules-ingress> <rules-egress>`   → rendering of the converted policy
   `ns <name> <labels>`                                      → ok
   `pod <id> <ns> <labels> <sa|~> <ip> <ports>`              → ok
   `oth <id> <labels> <ip>`                                  → ok
-  `conn <in|out> <party> <party> <proto> <dport>`           → `<calico verdict> <k8s verdict>`
+  `conn <in|out> <party> <party> <proto> <dport>`           → `<calico verdict> <k8s verdict> <calico verdict via the v1 selector TEXT and the C06 parser>`
+  `v1`                                                      → the v1 (updateprocessors) selectors of the converted policy
   `simp <ports>`                                            → SimplifyPorts output
 
   sel    := `~` | <ml>;<me>          ml := `_` | k=v,k=v      me := `_` | key:op:vals,…   vals := `_` | v+v
@@ -172,8 +173,13 @@ def step (st : St) (line : String) : St × String :=
       let conn : Conn := { src := a, dst := b, proto := pr, dport := po }
       let cv := calicoVerdict st.cluster (convert np).pol dir conn
       let kv := k8sVerdict st.cluster np dir conn
-      (st, cv.render ++ " " ++ kv.render)
+      let cv1 := calicoVerdictV1 st.cluster (convert np).pol dir conn
+      (st, cv.render ++ " " ++ kv.render ++ " " ++ cv1.render)
     | _, _, _, _, _, _ => (st, "bad-op")
+  | ["v1"] =>
+    match st.np with
+    | some np => (st, (convert np).pol.renderV1)
+    | none => (st, "bad-op")
   | ["simp", ports] =>
     match allSome ((splitL "," ports).map parseSimpPort) with
     | some ps => (st, ",".intercalate ((simplifyPorts ps).map CPort.render))
